@@ -26,6 +26,7 @@ import (
 
 func init() {
 	Register(&Scenario{
+		Pools:  true,
 		Name:   "login",
 		Props:  []string{"C15"},
 		Bubble: true,
@@ -65,6 +66,18 @@ func nulClass(d []byte) string {
 }
 
 func runLogin(r *core.Run) {
+	// a gateway answers login N and then verifies login N+1: state left behind by one exchange
+	// (pooled hash states, cached strings) must not leak into the next
+	n := 1 + r.C.Intn(3)
+	for i := 0; i < n && len(r.Findings) == 0; i++ {
+		if i > 0 {
+			r.Probe("login_after_login")
+		}
+		oneLogin(r)
+	}
+}
+
+func oneLogin(r *core.Run) {
 	c := r.C
 	flavour := c.Intn(3) // 0 cmpp20, 1 cmpp30, 2 smgp30
 	name := []string{"cmpp20", "cmpp30", "smgp30"}[flavour]
